@@ -64,7 +64,10 @@ Proof. exact prehello_refused. Qed.
    the property text) holds on the trace of every list of operations: any number
    of connections and sessions, any tokens, any interleaving of commands,
    payloads, drops, resumes, expiries, media-server loss and media-server
-   completions (repaired code). *)
+   completions (repaired code); bye and expiry also as the close in its phases
+   (OByeIn / OExpireIn: deleted from the list and detached / context cancelled /
+   publishers cleared / subscribers cleared / remote publishers cleared and waiting
+   for the sessions list) with any creations completing in any of the windows. *)
 Theorem C18_trace : forall sv keys ops, P_C18 sv keys (trace_of sv keys true ops) = true.
 Proof. exact P_holds. Qed.
 
@@ -86,6 +89,46 @@ Proof. exact bye_ends. Qed.
 
 Theorem C18_expiry_ends : forall sv keys rc st sid, ~ live (fst (step sv keys rc st (OExpire sid))) sid.
 Proof. exact expire_ends. Qed.
+
+(* the close in phases: whatever completes in whichever window of the close, with any
+   outcome (and whether or not the continuation looks at the session context again),
+   the session is gone when the close returns ... *)
+Theorem C18_bye_in_phases_ends : forall sv keys rc st c sid sched,
+  cs_closed (conns st c) = false -> cs_busy (conns st c) = false -> cs_sess (conns st c) = Some sid ->
+  ~ live (fst (step sv keys rc st (OByeIn c sched))) sid.
+Proof. exact bye_in_ends. Qed.
+
+Theorem C18_expiry_in_phases_ends : forall sv keys rc st sid sched,
+  ~ live (fst (step sv keys rc st (OExpireIn sid sched))) sid.
+Proof. exact expire_in_ends. Qed.
+
+(* ... the invariant of C18_cleanup holds when it returns (C18_cleanup and C18_trace range
+   over operation lists that contain OByeIn / OExpireIn); and with nothing completing
+   inside, the close in phases is the atomic close of OBye / OExpire. *)
+Theorem C18_close_phases_plain : forall rc st sid r,
+  close_phased rc st sid r [] = close_session st sid r.
+Proof. exact close_phased_plain. Qed.
+
+(* The creation completes inside the close (history of create_after_close with the
+   completion moved into the bye, in each of the five windows, publisher and subscriber):
+   the repaired code leaves nothing registered or open and P_C18 holds.  Without the second
+   look at the session context (code as found) a publisher arriving after clearPublishers
+   and a subscriber arriving after clearSubscribers stay behind: that the context is
+   cancelled BEFORE the tables are cleared is what makes the second look sufficient. *)
+Theorem C18_create_inside_close_repaired :
+  forallb (fun w => forallb (fun k =>
+     P_C18 sv_all keys_all (trace_of sv_all keys_all true (witness_ops_in w k)) &&
+     null (clients (run_gen true (witness_ops_in w k))) && null (mopen (run_gen true (witness_ops_in w k))))
+     [CCreatePub; CCreateSub]) all_windows = true.
+Proof. exact create_inside_close_repaired. Qed.
+
+Theorem C18_create_inside_close_as_found :
+  map (fun w => P_C18 sv_all keys_all (trace_of sv_all keys_all false (witness_ops_in w CCreatePub))) all_windows
+    = [true; true; false; false; false] /\
+  map (fun w => P_C18 sv_all keys_all (trace_of sv_all keys_all false (witness_ops_in w CCreateSub))) all_windows
+    = [true; true; true; false; false] /\
+  clients (run_gen false (witness_ops_in PhRemote CCreatePub)) = [(0, Pub, 1)].
+Proof. exact create_inside_close_as_found. Qed.
 
 (* a session that is gone never comes back, whatever follows *)
 Theorem C18_ended_is_final : forall sv keys rc more st sid,
@@ -164,6 +207,22 @@ Example C18_hello_sound_applies :
   live (fst (step ex_sv ex_keys true st (OHello 1 1000%Z (ex_tok 1)))) 2 /\ ~ live st 2.
 Proof. vm_compute. split; [right; left; reflexivity|]. intros [H|[]]; discriminate. Qed.
 
+(* the close in phases is exercised: session 2 has a subscriber and a publisher being
+   created (on a connection it was resumed from); the publisher arrives when the context is
+   cancelled, another session's publisher arrives in the last window and is kept *)
+Definition ex_ops_in : list op :=
+  [OHello 0 1000%Z (ex_tok 0); OHello 1 1000%Z (ex_tok 1); OCmd 1 CCreateSub; OMcuDone 0 MOk;
+   OCmd 1 CCreatePub; OResume 2 2; OCmd 0 CCreatePub;
+   OByeIn 2 [(PhRemote, 2, MOk); (PhCtx, 1, MOk)]; OPayload 0 1 PEnd; OPayload 0 2 PEnd].
+Example C18_nonvacuous_phases :
+  map (fun x => ob_msgs (snd x)) (trace_of ex_sv ex_keys true ex_ops_in) =
+  [ [(0, MHello 1); (0, MEvLoad)]; [(1, MHello 2); (1, MEvLoad)]; []; [(1, MCmd 0)];
+    []; [(1, MEvLoad); (1, MBye RResumed); (2, MHello 2); (2, MEvLoad)]; [];
+    [(2, MBye RClosed); (0, MCmd 2)]; [(0, MErr EUnknownClient)]; [(0, MPayload 2)] ] /\
+  clients (run ex_sv ex_keys ex_ops_in) = [(2, Pub, 1)] /\
+  P_C18 ex_sv ex_keys (trace_of ex_sv ex_keys true ex_ops_in) = true.
+Proof. vm_compute. auto. Qed.
+
 (* the hypotheses of C18_prehello_refused and C18_bye_ends are met *)
 Example C18_prehello_applies :
   client_msg_conn (OCmd 0 CCreatePub) = Some 0 /\ cs_sess (conns init 0) = None /\
@@ -190,5 +249,10 @@ Print Assumptions C18_expiry_ends.
 Print Assumptions C18_ended_is_final.
 Print Assumptions C18_mcu_lost_clears.
 Print Assumptions C18_delete_owner_only.
+Print Assumptions C18_bye_in_phases_ends.
+Print Assumptions C18_expiry_in_phases_ends.
+Print Assumptions C18_close_phases_plain.
+Print Assumptions C18_create_inside_close_repaired.
+Print Assumptions C18_create_inside_close_as_found.
 Print Assumptions C18_create_after_close_refuted.
 Print Assumptions C18_create_after_close_repaired.
